@@ -20,9 +20,10 @@ EXTENDS Naturals, Integers, Sequences, TLC, Json, IOUtils
 VARIABLES l, cur, lastk, bad, und
 Tr == ndJsonDeserialize(IOEnv.TRACE)
 Init == l = 1 /\ cur = [n |-> 0, mode |-> 0] /\ lastk = -1 /\ bad = <<>> /\ und = <<>>
-Injected(mode) == IF mode = 0 THEN "bad_alloc" ELSE IF mode = 1 THEN "abandoned" ELSE "overflow_error"
+Injected(mode) == IF mode \in {0, 3} THEN "bad_alloc" ELSE IF mode = 1 THEN "abandoned" ELSE "overflow_error"
 FaultCheck(e) ==
-  IF e.mode # cur.mode \/ e.k <= lastk \/ (e.mode < 2 /\ e.k >= cur.n) THEN "C14:fault-enumeration-out-of-order"
+  IF e.mode # cur.mode \/ e.k <= lastk \/ (e.mode # 2 /\ e.k >= cur.n - 1) THEN "C14:fault-enumeration-out-of-order"
+  ELSE IF e.crashed THEN "C14:crash-during-or-after-fault-in-a-fresh-process"
   ELSE IF e.thrown \notin {Injected(e.mode), "none", e.refexc} THEN "C14:fault-left-the-call-as-a-different-exception"
   ELSE IF e.thrown = "none" /\ e.fired /\ e.mode = 1 THEN "C14:abandonment-request-swallowed"
   ELSE IF ~e.usable THEN "C14:object-unusable-after-fault"
@@ -37,8 +38,10 @@ Next ==
           /\ UNCHANGED <<cur, lastk, bad, und>>
      ELSE LET e == Tr[l] IN
           IF e.e = "Reset" THEN cur' = [n |-> 0, mode |-> 0] /\ lastk' = -1 /\ UNCHANGED <<bad, und>>
+          \* a crash or hang BEFORE the "Hist" line happened in an undisturbed run: not a fault behaviour (the functional properties own it)
+          ELSE IF e.e \in {"Crash", "Hang"} /\ cur.n = 0 THEN cur' = cur /\ lastk' = lastk /\ und' = Append(und, l) /\ bad' = bad
           ELSE IF e.e \in {"Crash", "Hang"} THEN cur' = cur /\ lastk' = lastk /\ und' = und /\ bad' = Append(bad, [l |-> l, op |-> e.e, why |-> "C14:" \o e.e])
-          ELSE IF e.e = "Hist" THEN /\ cur' = [n |-> e.n, mode |-> e.mode] /\ lastk' = -1 /\ und' = und
+          ELSE IF e.e = "Hist" THEN /\ cur' = [n |-> e.n + 1, mode |-> e.mode] /\ lastk' = -1 /\ und' = und
                                     /\ bad' = IF e.usable /\ e.okafter THEN bad ELSE Append(bad, [l |-> l, op |-> e.op, why |-> "C14:object-unusable-after-undisturbed-run"])
           ELSE LET c == FaultCheck(e) IN
                /\ cur' = cur /\ lastk' = e.k
